@@ -103,7 +103,7 @@ def bounds(tier):
             "equiv_leaf_values": ["absent", "v1", "v2"], "equiv_variants": VARIANTS}
 
 
-VARIANTS = ["root", "nested", "both", "two-in-scope", "chain", "two-in-scope-override", "two-in-scope-introduce", "two-in-scope-null", "depth2", "depth2-plain-between"]
+VARIANTS = ["root", "nested", "both", "two-in-scope", "two-in-scope-aba", "two-in-scope-samename", "chain", "two-in-scope-override", "two-in-scope-introduce", "two-in-scope-null", "depth2", "depth2-plain-between"]
 
 
 def jobs(tier):
@@ -263,8 +263,12 @@ def _schema(variant, startdir, grown=None):
     kw = {"startdir": startdir} if startdir else {}
     if variant in ("root", "both", "chain") or variant.startswith("two-in-scope"):
         s.include = cc.IncludeField(**kw)
-    if variant.startswith("two-in-scope"):
+    if variant == "two-in-scope-samename" and startdir:
+        s.include2 = cc.IncludeField(startdir=os.path.join(startdir, "alt"))       # same relative name, another start directory
+    elif variant.startswith("two-in-scope"):
         s.include2 = cc.IncludeField(**kw)
+    if variant == "two-in-scope-aba":
+        s.include3 = cc.IncludeField(**kw)
     if variant in ("nested", "both", "chain"):
         s.sub.inc = cc.IncludeField(**kw)
     s.sub.deep.v = cc.IntField()
@@ -355,6 +359,20 @@ def _equiv(job, ctx):
                 files["r.inc"] = _mk(c[0], c[1], None, None)
                 files["r2.inc"] = _mk(c[1] and 2, None, c[2], c[3])
                 want = ref_merge(ref_merge(main, files["r.inc"]), files["r2.inc"])
+            elif variant == "two-in-scope-aba":
+                # three include fields of one scope naming A, B, A: the last one is A's again and wins over B
+                main["include"] = "r.inc"
+                main["include2"] = "r2.inc"
+                main["include3"] = "r.inc"
+                files["r.inc"] = _mk(c[0], c[1], None, c[3])
+                files["r2.inc"] = _mk(c[0] and 9, "from-r2", c[2], c[3] and "w-r2")
+                want = ref_merge(ref_merge(ref_merge(main, files["r.inc"]), files["r2.inc"]), files["r.inc"])
+            elif variant == "two-in-scope-samename":
+                main["include"] = "same.inc"
+                main["include2"] = "same.inc" if startdir else "alt/same.inc"
+                files["same.inc"] = _mk(c[0], c[1], None, None)
+                files["alt/same.inc"] = _mk(c[0] and 9, None, c[2], c[3])
+                want = ref_merge(ref_merge(main, files["same.inc"]), files["alt/same.inc"])
             elif variant in ("depth2", "depth2-plain-between"):
                 # an include two sub-configurations deep (with and without an include field in the scope in between)
                 main.setdefault("sub", {}).setdefault("deep", {})["inc2"] = "d.inc"
@@ -409,6 +427,7 @@ def _equiv(job, ctx):
             if variant in ("nested", "both", "chain"):
                 want.setdefault("sub", {})["ul"] = [1, [2]]
             for name, t in files.items():
+                os.makedirs(os.path.dirname(os.path.join(incdir, name)), exist_ok=True)
                 _write(fmt, os.path.join(incdir, name), t, job.get("opts"))
             mainpath = os.path.join(tmp, "main.cfg")
             maindata = _write(fmt, mainpath, main, job.get("opts"))
